@@ -108,7 +108,7 @@ struct C07 : public Driver {
         for (int i = 0; i < nd; ++i) { DocCfg dc; dc.maxNodes = (int)g.range(5, 25); dc.maxDepth = 4; dc.dtd = g.chance(1, 2); dc.ns = g.chance(2, 3); dc.manyNames = g.chance(1, 8); if (dc.manyNames) dc.maxNodes = 70; gd.push_back(genDoc(g, dc)); docs.push(gd.back().xml); }
         // facilities with lazily initialised state, forced in rotation
         static const std::vector<std::string> lazy = { "key", "keyids", "num-single", "num-multi", "num-any", "num-nocount", "id", "docfn", "fmtnum-df", "sort2", "attrset", "calltmpl", "modes", "exslt-set", "nodeset", "fmtnum", "rtf", "lang", "genid", "number-value" };
-        auto allowed = featuresExcept({ "message" });
+        auto allowed = featuresExcept({ "message", "doe" });
         Json feats = Json::array();
         for (int i = 0; i < ns; ++i) {
             SSCfg sc; sc.on = pickFeatures(g, allowed, 1, 4); sc.on.insert(lazy[(run * 2 + i) % lazy.size()]); sc.on.insert(g.pick(lazy));
@@ -151,7 +151,9 @@ struct C07 : public Driver {
         if (!c.err.empty()) { res.harness("shared objects could be built for the baseline but not for the concurrent phase: " + c.err); return; }
         // ---- oracles
         Json sched = Json::array(); for (auto& h : c.st.handovers) { Json e = Json::array(); e.push((long long)h.first); e.push(h.second); sched.push(e); }
-        Json sub = Json::object(); sub["schedule"] = sched;
+        // the explicit schedule is attached for minimisation only when it is short; a long one is reproduced from the
+        // plan's strategy and seed (same plan => same schedule, the run is deterministic)
+        Json sub; if (c.st.handovers.size() <= 400) { sub = Json::object(); sub["schedule"] = sched; }
         res.count("schedules"); res.count("switches", (int64_t)c.st.switches); res.count("steps", (int64_t)c.st.steps); res.count("func_points", (int64_t)c.st.funcPoints); res.count("alloc_points", (int64_t)c.st.allocPoints); res.count("io_points", (int64_t)c.st.ioPoints);
         res.count("strategy:" + strat); if (c.st.switches > (uint64_t)nt) res.count("fault:preempt", (int64_t)(c.st.switches - nt)); res.count("probe:blocked-by-xerces-lock", (int64_t)c.st.blockedByLock);
         res.count("probe:owner-manager-allocations-during-concurrent-phase", (int64_t)c.ownerAllocs);
